@@ -255,8 +255,18 @@ func c20InscCheck(c c20Insc) (fs []rep.Finding) {
 		args.EnrichedArgs = &bscript.EnrichedInscriptionArgs{OpReturnData: parts}
 	}
 	cls := fmt.Sprintf("ct=%s,data=%s", lenClass(c.CT), lenClass(c.Data))
+	var firstScript, firstWas []byte // the script the first call produced, kept as returned and as a copy
 	for round := 0; round < 3; round++ { // twice: the second call must not see leftovers of the first; then the specific-ordinal entry point
 		tx := bt.NewTx()
+		if round == 1 {
+			// between the two a different inscription is made from the same prefix object
+			other := *args
+			other.Data, other.ContentType = fill(c.Data+1, 0x39), "x/"+ct
+			_ = bt.NewTx().Inscribe(&other)
+			if !bytes.Equal(firstScript, firstWas) {
+				return append(fs, rep.F("Inscribe|earlier-inscription-overwritten", "inscribing other content from the same prefix object changed the script of the inscription made before"))
+			}
+		}
 		if round == 2 {
 			// satoshi 3 of input 1 (inputs of 5 and 7 satoshis) is to carry the inscription:
 			// first-in-first-out puts it at offset 8, so the output in front must hold 8 satoshis
@@ -281,6 +291,12 @@ func c20InscCheck(c c20Insc) (fs []rep.Finding) {
 			fs = append(fs, rep.F("Inscribe|modifies-callers-prefix", "the caller's locking-script prefix changed"))
 		}
 		out := tx.Outputs[len(tx.Outputs)-1]
+		if round == 0 {
+			firstScript = *out.LockingScript
+			firstWas = append([]byte(nil), firstScript...)
+		} else if !bytes.Equal(firstScript, firstWas) {
+			return append(fs, rep.F("Inscribe|earlier-inscription-overwritten", "inscribing again from the same prefix changed the script of the inscription made before"))
+		}
 		got, err := out.LockingScript.ParseInscription()
 		if err != nil {
 			return append(fs, rep.F("ParseInscription|rejects-own-inscription|"+cls, err.Error()))
